@@ -13,6 +13,7 @@ Monitors (DESIGN 3/C05):
 """
 from ..oracles import c05_ref as R
 from . import _c05_lm as LM
+from .. import layout as LY
 
 ID = "C05"
 LEVEL = "exploration"
@@ -420,6 +421,7 @@ def execute(case, mon):
     T, N, V, W = case["T"], case["N"], case["V"], case["width"]
     dtype = torch.float64 if case["dtype"] == "f64" else torch.float32
     logits = torch.tensor(case["logits"], dtype=dtype).reshape(T, N, V + 1)
+    logits = LY.relayout(logits, case.get("layout") or LY.pick(T, N, V, case["width"]))
     lens = case["lens"]
     lens_t = None if lens is None else torch.tensor(lens, dtype=torch.long)
     lens_n = [T] * N if lens is None else list(lens)
